@@ -31,16 +31,21 @@ Definition same_values (a b : impl_out) : bool :=
   | _, _ => false
   end.
 
+(* hf / hp: the horizon passed to fit / to predict (None = not passed) *)
 Inductive case :=
-  | CRun (leaf : option fc) (s : series) (ups : list (Z * list oq)) (refit : bool) (h : horizon)
-         (o : impl_out) (k : Z) (o2 : impl_out).
+  | CRun (leaf : option fc) (s : series) (ups : list (Z * list oq)) (refit : bool)
+         (hf hp : option horizon) (o : impl_out) (k : Z) (o2 : impl_out).
 
 Definition check (c : case) : bool :=
   match c with
-  | CRun leaf s ups refit h o k o2 =>
-      check_one leaf s ups refit h o &&
-      check_one leaf (shift_series k s) (map (shift_batch k) ups) refit (shift_h k h) o2 &&
-      same_values o o2
+  | CRun leaf s ups refit hf hp o k o2 =>
+      match used_fh hf hp with
+      | Ok h =>
+          check_one leaf s ups refit h o &&
+          check_one leaf (shift_series k s) (map (shift_batch k) ups) refit (shift_h k h) o2 &&
+          same_values o o2
+      | Err => false
+      end
   end.
 
 Fixpoint mism (cs : list (Z * case)) : list Z :=
